@@ -449,7 +449,8 @@ Lemma pn_move_present mk vlen m vl news :
 Proof.
   revert vl. induction news as [|[k p] news IH]; intros vl H; cbn [pn_move map rev app]; [reflexivity|].
   destruct (H k p (or_introl eq_refl)) as (g & Eg & Lg). rewrite Eg, add_known_ok by exact Lg.
-  rewrite IH by (intros; eapply H; right; eauto). unfold news_pair at 2. cbn [fst snd]. unfold gid_of. rewrite Eg.
+  rewrite IH by (intros; eapply H; right; eauto).
+  replace (news_pair m (k, p)) with (g, p) by (unfold news_pair, gid_of; cbn [fst snd]; rewrite Eg; reflexivity).
   rewrite <- app_assoc. reflexivity.
 Qed.
 Lemma process_new_present m next vlen vl news :
@@ -541,4 +542,162 @@ Proof.
         eapply Permutation_trans; [|apply Permutation_rev]. apply Permutation_map.
         eapply Permutation_trans; [apply Permutation_rev|]. apply Po.
     + unfold mlen in *. cbn [cs_reg set_reg r_map cstate_of] in *. lia.
+Qed.
+
+(* ------------------------------------------------------------------ prepare_batch_parallel *)
+Lemma filter_disj_perm {A} (p q r : A -> bool) (l : list A) :
+  (forall x, r x = p x || q x) -> (forall x, p x && q x = false) ->
+  Permutation (filter p l ++ filter q l) (filter r l).
+Proof.
+  intros Hr Hd. induction l as [|x l IH]; cbn [filter app]; [constructor|].
+  rewrite (Hr x). specialize (Hd x). destruct (p x) eqn:Ep, (q x) eqn:Eq; cbn [orb andb] in *; try discriminate.
+  - cbn [app]. apply perm_skip. exact IH.
+  - apply Permutation_sym. apply Permutation_cons_app. apply Permutation_sym. exact IH.
+  - exact IH.
+Qed.
+Lemma filter_all {A} (p : A -> bool) (l : list A) : (forall x, In x l -> p x = true) -> filter p l = l.
+Proof.
+  induction l as [|x l IH]; intro H; cbn [filter]; [reflexivity|]. rewrite (H x (or_introl eq_refl)). f_equal. apply IH.
+  intros y Hy. apply H. right. exact Hy.
+Qed.
+Lemma filter_none {A} (p : A -> bool) (l : list A) : (forall x, p x = false) -> filter p l = [].
+Proof. intro H. induction l as [|x l IH]; cbn [filter]; [reflexivity|]. rewrite H. exact IH. Qed.
+
+Lemma collect_range (vl : list (N * placed)) n from :
+  Permutation (collect vl n from) (filter (fun x => (from <=? fst x) && (fst x <? from + N.of_nat n)) vl).
+Proof.
+  revert from. induction n as [|n IH]; intro from; cbn [collect].
+  - rewrite filter_none; [constructor|]. intro x. lia.
+  - eapply Permutation_trans; [apply Permutation_app_head; apply IH|].
+    apply filter_disj_perm; intro x; lia.
+Qed.
+Lemma collect_perm (vl : list (N * placed)) vlen :
+  (forall x, In x vl -> fst x < vlen) -> Permutation (collect vl (N.to_nat vlen) 0) vl.
+Proof.
+  intro H. eapply Permutation_trans; [apply collect_range|]. rewrite filter_all; [apply Permutation_refl|].
+  intros x Hx. specialize (H x Hx). lia.
+Qed.
+
+Lemma rev_get_In m g best k : rev_get m g best = Some k -> best = Some k \/ In (k, g) m.
+Proof.
+  revert best. induction m as [|[k' g'] m IH]; intro best; cbn [rev_get]; [auto|].
+  destruct (N.eqb_spec g' g) as [->|Hne].
+  - intro H. apply IH in H. destruct H as [H|H]; [|right; right; exact H].
+    destruct best as [b|].
+    + destruct (key_ltb b k'); inversion H; subst; [right; left; reflexivity|left; reflexivity].
+    + inversion H; subst. right. left. reflexivity.
+  - intro H. apply IH in H. destruct H as [H|H]; [left; exact H|right; right; exact H].
+Qed.
+Lemma rev_get_some m g best : (best <> None \/ exists k, In (k, g) m) -> rev_get m g best <> None.
+Proof.
+  revert best. induction m as [|[k' g'] m IH]; intros best H; cbn [rev_get].
+  - destruct H as [H|(k & [])]. exact H.
+  - destruct (N.eqb_spec g' g) as [->|Hne].
+    + apply IH. left. destruct best as [b|]; [destruct (key_ltb b k')|]; discriminate.
+    + apply IH. destruct H as [H|(k & [Hk|Hk])]; [left; exact H| |right; exists k; exact Hk].
+      inversion Hk; subst. contradiction.
+Qed.
+
+(* the key a group's segments are buffered under: the missing-key fallback is not taken for a registered id *)
+Definition bkey (m : list (key * N)) (g : N) (k : key) : Prop :=
+  (g < NRAW /\ k = (g, MISS)) \/ (NRAW <= g /\ In (k, g) m).
+Lemma key_of_gid_bkey m g : gid_ok m g -> bkey m g (key_of_gid m g).
+Proof.
+  intro H. unfold key_of_gid, bkey. destruct (N.ltb_spec g NRAW) as [L|L]; [left; split; [exact L|reflexivity]|].
+  right. split; [exact L|]. destruct H as [H|H]; [lia|].
+  destruct (rev_get m g None) as [k|] eqn:E.
+  - apply rev_get_In in E. destruct E as [E|E]; [discriminate|exact E].
+  - exfalso. eapply rev_get_some; [|exact E]. right. exact H.
+Qed.
+
+Definition binv (m : list (key * N)) (bufs : list (key * buf)) : Prop :=
+  NoDup (map fst bufs) /\ forall k b, In (k, b) bufs -> bkey m (b_gid b) k.
+
+Lemma place_all_spec m bufs ss coll bufs' ss' out :
+  (forall g p, In (g, p) coll -> gid_ok m g) -> binv m bufs ->
+  place_all m bufs ss coll = (bufs', ss', out) ->
+  binv m bufs' /\ (forall k b, kget bufs k = Some b -> kget bufs' k = Some b) /\
+  Forall2 (fun c o => snd c = snd o /\ exists b, kget bufs' (key_of_gid m (fst c)) = Some b /\ b_gid b = fst o) coll out.
+Proof.
+  revert bufs ss bufs' ss' out. induction coll as [|[g p] coll IH]; intros bufs ss bufs' ss' out Hok Hb E; cbn [place_all] in E.
+  - inversion E; subst. split; [exact Hb|]. split; [auto|constructor].
+  - destruct (kget bufs (key_of_gid m g)) as [b|] eqn:Eb.
+    + destruct (place_all m bufs ss coll) as [[bufs1 ss1] out1] eqn:E1. inversion E; subst; clear E.
+      destruct (IH _ _ _ _ _ (fun g' p' H => Hok g' p' (or_intror H)) Hb E1) as (I1 & M1 & F1).
+      split; [exact I1|]. split; [exact M1|]. constructor; [|exact F1]. cbn [fst snd]. split; [reflexivity|].
+      exists b. split; [apply M1; exact Eb|reflexivity].
+    + set (ss1 := register_group ss g) in *.
+      set (b := {| b_gid := g; b_sid := stream_index ss1 g false 0; b_rsid := stream_index ss1 g true 0 |}) in *.
+      destruct (place_all m (bufs ++ [(key_of_gid m g, b)]) ss1 coll) as [[bufs1 ss2] out1] eqn:E1. inversion E; subst; clear E.
+      assert (Hb1 : binv m (bufs ++ [(key_of_gid m g, b)])).
+      { destruct Hb as [ND Hb]. split.
+        - rewrite map_app. cbn [map fst]. apply NoDup_app_snoc; [exact ND|]. apply kget_None. exact Eb.
+        - intros k b0 H. apply in_app_or in H. destruct H as [H|[H|[]]]; [exact (Hb k b0 H)|].
+          inversion H; subst. cbn [b_gid]. apply key_of_gid_bkey. apply (Hok g p). left. reflexivity. }
+      destruct (IH _ _ _ _ _ (fun g' p' H => Hok g' p' (or_intror H)) Hb1 E1) as (I1 & M1 & F1).
+      split; [exact I1|]. split.
+      * intros k b0 H. apply M1. apply kget_app_mono. exact H.
+      * constructor; [|exact F1]. cbn [fst snd]. split; [reflexivity|]. exists b. split; [|reflexivity].
+        apply M1. apply kget_snoc_new. exact Eb.
+Qed.
+
+(* cleanup_batch_parallel: the batch-local keys that are written back *)
+Definition batch_ok (m : list (key * N)) (kg : key * N) : Prop :=
+  kget m (fst kg) <> None \/ (snd kg < NRAW /\ fst kg = (snd kg, MISS)).
+
+Lemma minv_raw_copy m gc g : minv m gc -> g < NRAW -> kget m (g, MISS) = None -> minv (m ++ [((g, MISS), g)]) gc.
+Proof.
+  intros I L Hn. constructor.
+  - apply kget_app_mono. exact (mi_orph _ _ I).
+  - rewrite map_app. cbn [map fst]. apply NoDup_app_snoc; [exact (mi_keys _ _ I)|]. apply kget_None. exact Hn.
+  - rewrite lz_gids_app. unfold lz_gids at 2 4. cbn [filter snd map].
+    assert (E : (NRAW <=? g) = false) by lia. rewrite E. cbn [map]. rewrite app_nil_r. exact (mi_lz _ _ I).
+  - rewrite lz_gids_app. unfold lz_gids at 2. cbn [filter snd map].
+    assert (E : (NRAW <=? g) = false) by lia. rewrite E. cbn [map]. rewrite app_nil_r. exact (mi_gc _ _ I).
+  - intros k' g' H L'. apply in_app_or in H. destruct H as [H|[H|[]]]; [exact (mi_raw _ _ I k' g' H L')|].
+    inversion H; subst. right. reflexivity.
+Qed.
+
+Lemma cleanup_spec batch : forall m gc, minv m gc -> Forall (batch_ok m) batch ->
+  let m3 := fold_left (fun m x => or_insert m (fst x) (snd x)) batch m in
+  minv m3 gc /\ (forall k g, kget m k = Some g -> kget m3 k = Some g) /\ (forall x, In x m -> In x m3) /\
+  lenN m <= lenN m3 /\ (forall k, In k (map fst batch) -> kget m3 k <> None).
+Proof.
+  induction batch as [|[k g] batch IH]; intros m gc I Hb; cbn [fold_left fst snd].
+  - cbn zeta. split; [exact I|]. split; [auto|]. split; [auto|]. split; [lia|]. intros k [].
+  - inversion Hb as [|x l Hk Hrest]; subst.
+    assert (I1 : minv (or_insert m k g) gc).
+    { unfold or_insert. destruct (kget m k) eqn:E; [exact I|]. destruct Hk as [Hk|[L Ek]]; cbn [fst snd] in *; [congruence|].
+      subst k. apply minv_raw_copy; assumption. }
+    assert (Hrest1 : Forall (batch_ok (or_insert m k g)) batch).
+    { eapply Forall_impl; [|exact Hrest]. intros [k' g'] [H|H]; [left|right; exact H]. cbn [fst] in *.
+      destruct (kget m k') eqn:E; [|contradiction]. erewrite or_insert_mono by exact E. discriminate. }
+    destruct (IH _ _ I1 Hrest1) as (I3 & M3 & In3 & L3 & P3). cbn zeta in *.
+    split; [exact I3|]. split; [intros k' g' H; apply M3; apply or_insert_mono; exact H|].
+    split.
+    { intros x Hx. apply In3. unfold or_insert. destruct (kget m k); [exact Hx|apply in_or_app; left; exact Hx]. }
+    split.
+    { pose proof (or_insert_len m k g). unfold lenN in *. lia. }
+    intros k' [E|H]; [subst k'|apply P3; exact H].
+    pose proof (or_insert_present m k g) as Hp. destruct (kget (or_insert m k g) k) eqn:E; [|contradiction].
+    pose proof (M3 _ _ E) as H3. intro Hn. cbn [fst snd] in Hn, H3. rewrite Hn in H3. discriminate.
+Qed.
+
+Lemma batch_spec m (coll : list (N * placed)) : (forall g p, In (g, p) coll -> gid_ok m g) ->
+  forall b0, Forall (batch_ok m) b0 ->
+  let batch := fold_left (fun b x => kset b (key_of_gid m (fst x)) (fst x)) coll b0 in
+  Forall (batch_ok m) batch /\ (forall k, In k (map fst b0) -> In k (map fst batch)) /\
+  (forall g p, In (g, p) coll -> In (key_of_gid m g) (map fst batch)).
+Proof.
+  induction coll as [|[g p] coll IH]; intros Hok b0 Hb0; cbn [fold_left fst].
+  - cbn zeta. split; [exact Hb0|]. split; [auto|]. intros g p [].
+  - assert (H1 : Forall (batch_ok m) (kset b0 (key_of_gid m g) g)).
+    { apply Forall_forall. intros x Hx. apply kset_In in Hx. destruct Hx as [Hx|Hx]; [eapply Forall_forall; eauto|]. subst x.
+      assert (Hg : gid_ok m g) by (apply (Hok g p); left; reflexivity).
+      destruct (key_of_gid_bkey m g Hg) as [[L E]|[L Hin]]; unfold batch_ok; cbn [fst snd].
+      - right. split; [exact L|exact E].
+      - left. intro Hn. apply kget_None in Hn. apply Hn. apply in_map_iff. exists (key_of_gid m g, g). split; [reflexivity|exact Hin]. }
+    destruct (IH (fun g' p' H => Hok g' p' (or_intror H)) _ H1) as (F & K & C). cbn zeta in *.
+    split; [exact F|]. split; [intros k Hk; apply K; apply kset_keeps; exact Hk|].
+    intros g' p' [E|H]; [inversion E; subst; apply K; apply kset_has|exact (C g' p' H)].
 Qed.
